@@ -43,6 +43,8 @@ type c17Manifest struct {
 	EmptySec bool      `json:"emptySec"` // write empty sections as {} instead of omitting them
 	Via      string    `json:"via"`      // bytes | reader | file
 	Edits    []c17Edit `json:"edits"`
+	// Form: the written form of the body (c17_form.go); nil: what yaml.Marshal gives
+	Form *c17Form `json:"form,omitempty"`
 }
 
 type c17Emb struct {
@@ -129,7 +131,14 @@ var c17PropKeys = []string{"a", "a.b", "a.k", "c", "d.e.f", "l[0]", "l[1]", "srv
 
 var c17StringPool = []string{"", "s", "plain text", "line1\nline2\n", "line1\nline2", "\nlead", "trail \n", "héllo ✓ 日本語",
 	"123", "1.5", "-7", "0x1f", "1e3", "true", "null", "~", "no", "2001-12-14", " lead", "trail ", "a: b", "# c", "- x",
-	"'q'", "\"dq\"", "tab\there", "{x: 1}", "[1, 2]", "k=v\nk2=v2\n", strings.Repeat("long ", 30), "%v", "|", ">-", "a\n\n\nb", "::"}
+	"'q'", "\"dq\"", "tab\there", "{x: 1}", "[1, 2]", "k=v\nk2=v2\n", strings.Repeat("long ", 30), "%v", "|", ">-", "a\n\n\nb", "::",
+	// round 5: white space only / CRLF / NBSP, supplementary-plane characters and U+FFFD, digit strings at the
+	// 2^53 / 2^63 / 2^64 boundaries, signed zeros, number and boolean spellings of YAML 1.1 and 1.2, YAML indicators
+	" ", "\t", "\n", "\r\n", "crlf\r\nline\r\n", "\u00a0", "nb\u00a0sp", "\U0001F680", "\U0001D6FC\u03b2", "\ufffd", "e\u0301", "\u00e9",
+	"9007199254740993", "9223372036854775807", "9223372036854775808", "18446744073709551615", "18446744073709551616",
+	"123456789012345678901234", "-0", "-0.0", "+1", ".5", "5.", "0o17", "017", "0b1", "1_000", ".inf", "-.Inf", ".NaN", "1:30",
+	"True", "TRUE", "False", "y", "Y", "n", "on", "Off", "t", "T", "f", "F", "0", "1", "Null", "NULL", "nil",
+	"=", "<<", "---", "...", "--- x", "!!str x", "&a x", "*a", "? k", "@at", "`bt", "%TAG", "a #b", "a: ", "- ", "k:\tv", "\\n", "\\"}
 
 func c17YamlStable(s string) bool {
 	b, err := yaml.Marshal(map[string]any{"k": s})
@@ -165,7 +174,7 @@ func c17GenString(r *rand.Rand) string {
 }
 
 func c17GenBytes(r *rand.Rand) []int {
-	n := []int{0, 1, 2, 3, 4, 5, 6, 7, 16, 31, 32, 33, 40}[r.Intn(13)]
+	n := []int{0, 1, 2, 3, 4, 5, 6, 7, 16, 31, 32, 33, 40, 47, 48, 49, 50, 56, 57, 58, 59, 100, 101}[r.Intn(23)]
 	if r.Intn(3) == 0 {
 		n = r.Intn(41)
 	}
@@ -250,12 +259,14 @@ func c17GenItems(r *rand.Rand, keys []string, maxN int, stringsOnly bool) []c17I
 	return out
 }
 
-func c17GenBins(r *rand.Rand, maxN int) []c17Bin {
+func c17GenBins(r *rand.Rand, maxN int) []c17Bin { return c17GenBinsOf(r, c17Keys, maxN) }
+
+func c17GenBinsOf(r *rand.Rand, keys []string, maxN int) []c17Bin {
 	n := r.Intn(maxN + 1)
 	seen := map[string]bool{}
 	out := []c17Bin{}
 	for i := 0; i < n; i++ {
-		k := pick(r, c17Keys)
+		k := pick(r, keys)
 		if seen[k] {
 			continue
 		}
@@ -265,10 +276,12 @@ func c17GenBins(r *rand.Rand, maxN int) []c17Bin {
 	return out
 }
 
-func c17GenEdits(r *rand.Rand, n int) []c17Edit {
+func c17GenEdits(r *rand.Rand, n int) []c17Edit { return c17GenEditsOf(r, c17Keys, n) }
+
+func c17GenEditsOf(r *rand.Rand, keys []string, n int) []c17Edit {
 	out := []c17Edit{}
 	for i := 0; i < n; i++ {
-		k := pick(r, c17Keys)
+		k := pick(r, keys)
 		switch r.Intn(4) {
 		case 0:
 			out = append(out, c17Edit{Op: "supdate", Key: k, S: c17GenString(r)})
@@ -289,8 +302,16 @@ func c17Run(c *Ctx) {
 	for i := 0; i < c.N(2500); i++ {
 		c.Tick()
 		kind := pick(r, kinds)
-		cs := c17Manifest{Kind: kind, Extra: c17GenExtra(r, kind), Text: c17GenItems(r, c17Keys, 5, false), Bin: c17GenBins(r, 4),
-			EmptySec: r.Intn(6) == 0, Via: pick(r, []string{"bytes", "bytes", "reader", "file"}), Edits: c17GenEdits(r, r.Intn(9))}
+		// item keys: the classic pool, or (one case in three) confusable / unusual spellings (c17_form.go)
+		keys := c17Keys
+		if r.Intn(3) == 0 {
+			keys = c17PickKeys(r)
+		}
+		cs := c17Manifest{Kind: kind, Extra: c17GenExtra(r, kind), Text: c17GenItems(r, keys, 5, false), Bin: c17GenBinsOf(r, keys, 4),
+			EmptySec: r.Intn(6) == 0, Via: pick(r, []string{"bytes", "bytes", "reader", "file"}), Edits: c17GenEditsOf(r, keys, r.Intn(9))}
+		if r.Intn(3) == 0 {
+			cs.Form = c17GenForm(r, cs.Text, cs.Bin)
+		}
 		c.Do("manifest", cs)
 	}
 	for i := 0; i < c.N(900); i++ {
@@ -695,6 +716,27 @@ func c17EvalManifest(c *Ctx, raw []byte) {
 	body, err := yaml.Marshal(root)
 	if err != nil {
 		panic(err)
+	}
+	if cs.Form != nil {
+		if fb, ok := c17FormBody(cs.Kind, cs.Extra, cs.Text, cs.Bin, cs.EmptySec, cs.Form); ok {
+			body = fb
+			c.Dist("form:written-by-hand")
+			for _, it := range cs.Bin {
+				bf := cs.Form.Bin[it.K]
+				lay := c17Layout(c17ToBytes(it.B), bf)
+				if strings.ContainsAny(lay, "\r\n") {
+					c.Dist(fmt.Sprintf("form:base64-with-line-breaks,len%%3=%d", len(it.B)%3))
+				}
+				if strings.HasSuffix(lay, "\n") {
+					c.Dist(fmt.Sprintf("form:base64-ends-in-line-break,len%%3=%d", len(it.B)%3))
+				}
+				if bf.Wrap >= 64 && len(lay) > bf.Wrap+2 {
+					c.Dist("form:base64-wrapped-at-64/76")
+				}
+			}
+		} else {
+			c.Dist("form:not-read-back-by-yaml.v3(default form used)")
+		}
 	}
 	if len(cs.Text)+len(cs.Bin) > 0 {
 		c.Nontrivial()
